@@ -113,6 +113,42 @@ def fam_cycle_include(k):
     return files, ("error",)
 
 
+CYCLE_ENTRIES = {
+    "instruction": ["c0 1"],
+    "data-asm": ["#d8 asm { c0 1 }"],
+    "constant-asm": ["val = asm { c0 1 }", "#d8 val"],
+    "res-asm": ["#res asm { c0 1 }"],
+    "addr-asm": ["#addr asm { c0 1 }"],
+    "align-asm": ["#align asm { c0 1 }"],
+    "assert-asm": ["#assert asm { c0 1 } == 0", "#d8 1"],
+    "argument-asm": ["emit asm { c0 1 }"],
+    "fn-asm": ["#fn h(v) => asm { c0 {v} }", "#d8 h(1)"],
+    "fn-fn-asm": ["#fn h(v) => asm { c0 {v} }", "#fn hh(v) => h(v)", "#d8 hh(1)"],
+    "nested-asm": ["#d8 asm { emit asm { c0 1 } }"],
+    "later-label": ["#d8 asm { c0 end }", "end:"],
+}
+
+
+def fam_cycle_entry(entry):
+    """Recursion cycle of length L (k % 10) through rules in shape k // 10 (1: rule -> asm -> rule, 2: rule -> function
+    -> asm -> rule, 3: rule -> block-local = asm -> rule), entered from the given context."""
+    def fn(k):
+        shape, n = k // 10, k % 10
+        rules, fns = ["    emit {x} => x`8"], []
+        for i in range(n):
+            nxt = "c%d" % ((i + 1) % n)
+            if shape == 1:
+                rules.append("    c%d {x} => asm { %s {x} }" % (i, nxt))
+            elif shape == 2:
+                rules.append("    c%d {x} => f%d(x)" % (i, i))
+                fns.append("#fn f%d(v) => asm { %s {v} }" % (i, nxt))
+            else:
+                rules.append("    c%d {x} => {\n        y = asm { %s {x} }\n        y\n    }" % (i, nxt))
+        src = "#ruledef\n{\n" + "\n".join(rules) + "\n}\n" + "\n".join(fns + CYCLE_ENTRIES[entry]) + "\n"
+        return {"main.asm": src}, ("error",)
+    return fn
+
+
 def fam_shl(k):
     return {"main.asm": "#d8 ((1 << %d) >> %d)[7:0]\n" % (pow2(k), pow2(k))}, ("either", "01")
 
@@ -247,6 +283,8 @@ FAMILIES = {
     "fn-cycle": (fam_cycle_fn, [1, 2, 3, 4], [1, 2, 3, 4]),
     "asm-cycle": (fam_cycle_asm, [1, 2, 3, 4], [1, 2, 3, 4]),
     "constant-cycle": (fam_cycle_rule_expr, [1, 2, 3, 4], [1, 2, 3, 4, 50]),
+    **{"cycle-from-" + e: (fam_cycle_entry(e), [11, 12, 13, 14, 21, 22, 23, 31, 32, 33], [s * 10 + n for s in (1, 2, 3) for n in (1, 2, 3, 4)])
+       for e in CYCLE_ENTRIES},
     "subrule-left-recursion": (fam_cycle_subrule, [1, 2, 3, 4], [1, 2, 3, 4]),
     "include-cycle": (fam_cycle_include, [1, 2, 3, 4], [1, 2, 3, 4]),
     "shift-left": (fam_shl, POW_Q, POW_T),
